@@ -18,7 +18,7 @@ def untag(x):
             if k in ("inf", "-inf"):
                 return float(k)
             if k == "bigint":
-                return int(x["v"])
+                return int(x["v"], 0)
             if k == "tuple":
                 return tuple(untag(e) for e in x["v"])
             if k in ("dict", "MyDict") and "items" in x:
